@@ -191,9 +191,14 @@ func fdOfSocketInode(ino string) int {
 }
 
 func c18Spoof(c *mon.Ctx) {
-	for _, proto := range []int{syscall.NETLINK_ROUTE, syscall.NETLINK_USERSOCK} {
+	for _, pg := range []struct {
+		proto  int
+		groups uint32
+	}{{syscall.NETLINK_ROUTE, 1}, {syscall.NETLINK_USERSOCK, 1}, {syscall.NETLINK_ROUTE, 0}, {syscall.NETLINK_USERSOCK, 0}} {
+		proto := pg.proto
 		before := socketInodes()
-		cl, err := libaudit.NewNetlinkClient(proto, 1, make([]byte, 32768), nil)
+		// (clients subscribed to a multicast group and plain unicast clients, as NewAuditClient opens them)
+		cl, err := libaudit.NewNetlinkClient(proto, pg.groups, make([]byte, 32768), nil)
 		if err != nil {
 			c.Note("spoof: cannot open protocol %d client: %v", proto, err)
 			continue
@@ -213,8 +218,11 @@ func c18Spoof(c *mon.Ctx) {
 			continue
 		}
 		syscall.Bind(fd, &syscall.SockaddrNetlink{Family: syscall.AF_NETLINK})
-		r := c.Rand(7, uint64(proto))
+		r := c.Rand(7, uint64(proto)+100*uint64(pg.groups))
 		delivered := 0
+		if pg.groups == 0 {
+			c.Add("spoof_rounds_against_unicast_clients", 1)
+		}
 		lens := []int{}
 		for n := 0; n <= 64; n++ {
 			lens = append(lens, n)
@@ -228,8 +236,8 @@ func c18Spoof(c *mon.Ctx) {
 			for variant := 0; variant < 3; variant++ {
 				mcast := variant == 1
 				own := variant == 2
-				if !mcast && !found || own && ownFd < 0 {
-					continue
+				if !mcast && !found || own && ownFd < 0 || mcast && pg.groups == 0 {
+					continue // (a client outside the group is not reached by a multicast datagram: nothing to receive)
 				}
 				d := r.Bytes(n)
 				switch r.Intn(3) {
@@ -795,7 +803,7 @@ func c18Run(c *mon.Ctx) {
 func init() {
 	register(&mon.CheckSpec{
 		ID: "C18", Level: "exploration",
-		Rule: "cases = (a,c) requests sent with NetlinkClient.Send on a real NETLINK_ROUTE socket - types 0..15 with NLM_F_ACK (header-only echo) and random types in 256..65535 (never 16..255: live rtnetlink operations), flags = any 16 bits | NLM_F_REQUEST (and any 16 bits | NLM_F_ACK without NLM_F_REQUEST: acknowledged unprocessed, header echoed), payload lengths 0..8970 (every 37th quick, every length thorough) plus every length 0..64, random short payloads, and clients whose caller-supplied read buffer the reply fills exactly or with 1/4/64 bytes to spare - (most through a second client opened while a first one is open, so the socket's port id differs from the process id) whose NLMSG_ERROR reply, read back with Receive, carries the request as the kernel saw it (length, type, flags, port id, sequence = returned value, payload bytes); (b) N in {2,4,16} goroutines x M sends on one client: per-goroutine increasing, globally distinct, and the recorded {call, return, value} history checked with porcupine against a strictly increasing counter model (direct interval check when porcupine gives up), and a storm of 12 senders beside 6 goroutines whose sends the kernel refuses (distinct and per-goroutine increasing only); (d) datagrams of every length 0..64 and random longer ones, arbitrary and ACK-shaped contents, unicast and multicast from a second user-space netlink socket and unicast from the client's own socket to its own port id (NETLINK_ROUTE as root, NETLINK_USERSOCK): Receive must return an error and no message, and a later kernel reply must still be received; (e) AuditClient.Receive over the simulated Netlink with datagrams of every length 0..64 and random longer ones ending at a PROT_NONE page; (f) eight AuditClients, each with its own transport and goroutine, receiving at the same time: each gets the type and payload of its own datagram, and the message returned by the previous call keeps its type and length; (g) a client bound to an otherwise unused multicast group sends NLMSG_NOOP requests while a second socket in the same group listens: it must receive nothing (requests are addressed to the kernel only). Runs under the race detector; ASan in thorough. distinct_nontrivial = distinct frames, spoofed datagrams, parse inputs and sequence histories.",
+		Rule: "cases = (a,c) requests sent with NetlinkClient.Send on a real NETLINK_ROUTE socket - types 0..15 with NLM_F_ACK (header-only echo) and random types in 256..65535 (never 16..255: live rtnetlink operations), flags = any 16 bits | NLM_F_REQUEST (and any 16 bits | NLM_F_ACK without NLM_F_REQUEST: acknowledged unprocessed, header echoed), payload lengths 0..8970 (every 37th quick, every length thorough) plus every length 0..64, random short payloads, and clients whose caller-supplied read buffer the reply fills exactly or with 1/4/64 bytes to spare - (most through a second client opened while a first one is open, so the socket's port id differs from the process id) whose NLMSG_ERROR reply, read back with Receive, carries the request as the kernel saw it (length, type, flags, port id, sequence = returned value, payload bytes); (b) N in {2,4,16} goroutines x M sends on one client: per-goroutine increasing, globally distinct, and the recorded {call, return, value} history checked with porcupine against a strictly increasing counter model (direct interval check when porcupine gives up), and a storm of 12 senders beside 6 goroutines whose sends the kernel refuses (distinct and per-goroutine increasing only); (d) datagrams of every length 0..64 and random longer ones, arbitrary and ACK-shaped contents, unicast and multicast from a second user-space netlink socket and unicast from the client's own socket to its own port id (NETLINK_ROUTE as root, NETLINK_USERSOCK; clients subscribed to group 1 and plain unicast clients): Receive must return an error and no message, and a later kernel reply must still be received; (e) AuditClient.Receive over the simulated Netlink with datagrams of every length 0..64 and random longer ones ending at a PROT_NONE page; (f) eight AuditClients, each with its own transport and goroutine, receiving at the same time: each gets the type and payload of its own datagram, and the message returned by the previous call keeps its type and length; (g) a client bound to an otherwise unused multicast group sends NLMSG_NOOP requests while a second socket in the same group listens: it must receive nothing (requests are addressed to the kernel only). Runs under the race detector; ASan in thorough. distinct_nontrivial = distinct frames, spoofed datagrams, parse inputs and sequence histories.",
 		Assumptions: []string{
 			"the running kernel echoes rejected NETLINK_ROUTE requests in NLMSG_ERROR replies (netlink_ack) and delivers user-to-user netlink datagrams for root; if sockets cannot be opened the check is inconclusive, not green",
 			"message types 16..255 are never sent (they are live rtnetlink operations)",
